@@ -180,6 +180,14 @@ Section Pages.
       + cbn [tl length] in *. rewrite Hr, app_length in Hb. lia.
   Qed.
 
+  Lemma s3_session_fuel : forall ks zss f1 f2,
+    (length zss + length ks < f1)%nat -> (f1 <= f2)%nat ->
+    s3_session f1 name_of m ks 0 zss = s3_session f2 name_of m ks 0 zss.
+  Proof.
+    intros ks zss f1 f2 Hb Hle. induction Hle as [|f2 Hle IH]; [reflexivity|].
+    rewrite IH. apply (s3_session_fuel_step ks f2 zss 0 []); [reflexivity|cbn [rest_of]; lia].
+  Qed.
+
   (* a single call (the non-paginated List): a prefix of the keys; complete iff the token is empty *)
   Lemma s3_list_once_first : forall ks zs names tok',
     s3_list_once name_of m ks 0 zs = (names, tok') ->
